@@ -155,6 +155,22 @@ class OfxgetWorld:
     # -- world construction ---------------------------------------------------------------------
     def draw_value(self, opt, label):
         ch = self.ch
+        # coincidences: "is this the default / the value another source already holds?" is where the
+        # save-or-skip and precedence logic branches, so values equal to what a lower-ranking source holds are
+        # drawn on purpose
+        if label in ("cli", "user") and opt not in BOOLS and ch.flag(label + ".coincide", 0.3):
+            cands = []
+            for src in ((self.user_default, self.user_model, self.fidb) if label == "cli" else (self.fidb,)):
+                v = src.get(opt)
+                if not null(v):
+                    cands.append(v)
+            if not null(DEFAULTS.get(opt)):
+                cands.append(DEFAULTS[opt])
+            if opt == "clientuid" and self.default_clientuid:
+                cands.append(self.default_clientuid)
+            if cands:
+                v = cands[ch.pick(label + ".coincide.which", len(cands))]
+                return list(v) if isinstance(v, list) else v
         if opt in BOOLS:
             return bool(ch.pick(label + ".bool", 2))
         if opt in LISTS:
@@ -204,7 +220,7 @@ class OfxgetWorld:
         # FI database
         fidb = {}
         for opt in SRVR:
-            if ch.flag("fidb." + opt, 0.22):
+            if ch.flag("fidb." + opt, 0.3):
                 fidb[opt] = self.draw_value(opt, "fidb")
                 if opt == "url" and "%" in fidb[opt]:
                     fidb[opt] = URLS[0]        # '%' reaches files only through the program's own --write
@@ -234,7 +250,7 @@ class OfxgetWorld:
             # other options kept under [DEFAULT]: their precedence is not stated by the property, so effective
             # values they could decide are not judged (L1), but saving and re-reading (L2) is
             for opt in ("appver", "appid", "language", "org", "user"):
-                if ch.flag("user.default." + opt, 0.12):
+                if ch.flag("user.default." + opt, 0.2):
                     self.user_default[opt] = self.draw_value(opt, "userdefault")
                     dflt.append(f"{opt} = {cfg_text(self.user_default[opt])}")
             if dflt:
